@@ -422,7 +422,44 @@ func TestRepeatPrograms(t *testing.T) {
 	rapid.Check(t, func(t *rapid.T) {
 		var c progCase
 		labels := []string{}
-		switch rapid.IntRange(0, 8).Draw(t, "kind") {
+		switch rapid.IntRange(0, 10).Draw(t, "kind") {
+		case 9, 10: // built-in members of texts and lists whose arguments (and receiver) are made of the
+			// pieces those members give a meaning to - placeholders inside the texts that replace
+			// placeholders, separators inside the parts, the pattern inside the replacement: what
+			// the member makes of them is the same on every run
+			pieces := []string{"{#1}", "{#2}", "{#3}", "{#10}", "{}", "甲", "乙", "a", "aa", "", "，", "{#", "}", "1", "{#1}{#2}"}
+			txt := func(w string) string {
+				n := rapid.IntRange(0, 3).Draw(t, w+"-n")
+				out := ""
+				for i := 0; i < n; i++ {
+					out += rapid.SampledFrom(pieces).Draw(t, w)
+				}
+				return "“" + out + "”"
+			}
+			args := func(w string, lo, hi int) string {
+				var as []string
+				for i, n := 0, rapid.IntRange(lo, hi).Draw(t, w+"-k"); i < n; i++ {
+					as = append(as, txt(fmt.Sprintf("%s%d", w, i)))
+				}
+				return strings.Join(as, "、")
+			}
+			var lines []string
+			for i, n := 0, rapid.IntRange(1, 4).Draw(t, "ncalls"); i < n; i++ {
+				switch rapid.IntRange(0, 6).Draw(t, "member") {
+				case 0, 1, 2:
+					lines = append(lines, "（显示：以"+txt("tpl")+"（格式化："+args("fa", 1, 4)+"））")
+				case 3:
+					lines = append(lines, "（显示：以"+txt("rs")+"（替换："+args("ra", 2, 2)+"））")
+				case 4:
+					lines = append(lines, "（显示：以"+txt("ss")+"（分隔："+args("sa", 1, 1)+"））")
+				case 5:
+					lines = append(lines, "（显示：以【"+strings.ReplaceAll(args("jl", 0, 4), "、", "，")+"】（拼接："+args("ja", 1, 1)+"））")
+				default:
+					lines = append(lines, "（显示："+txt("pt")+" % 【"+strings.ReplaceAll(args("pa", 0, 3), "、", "，")+"】）")
+				}
+			}
+			c.Src = strings.Join(lines, "\n") + "\n输出1\n拦截异常：\n    输出其内容"
+			labels = append(labels, "members-fed-their-own-markers")
 		case 8: // in-place number methods reaching values written as literals: the next run of the
 			// same text starts from the same literals
 			a := rapid.IntRange(0, 9999).Draw(t, "lit-a")
